@@ -208,6 +208,7 @@ func (r *Run) Explore(part, bound string, o mc.Opts, body func(*mc.Ctx)) mc.Stat
 		os.Exit(1)
 	}
 	t0 := time.Now()
+	o.OnHang = r.onHang(part)
 	st := mc.Explore(o, body)
 	r.account(part, bound, o, st, t0, body)
 	return st
@@ -272,6 +273,17 @@ func (r *Run) account(part, bound string, o mc.Opts, st mc.Stats, t0 time.Time, 
 		r.ID, part, st.Execs, st.Points, st.NonTrivial, st.FailCount, st.Complete, ps.Wall, bound)
 }
 
+// onHang: an execution that does not terminate is a violation (the code under
+// test loops forever on this input); the process cannot recover, so it reports
+// and exits.
+func (r *Run) onHang(part string) func([]int) {
+	return func(choices []int) {
+		f := mc.Failure{Class: "hang", Detail: "an execution did not terminate within the per-execution limit (the remaining choices after this prefix are all 0)", Choices: choices}
+		r.file(part, f, nil)
+		os.Exit(1)
+	}
+}
+
 // Owned reports whether index idx belongs to this process's shard; when it does
 // not, the execution is marked skipped and the driver must return at once.
 func (r *Run) Owned(c *mc.Ctx, idx int) bool {
@@ -294,6 +306,7 @@ func (r *Run) ExploreSharded(part, bound string, o mc.Opts, n int, body func(*mc
 	}
 	if r.shardN > 0 { // child
 		o.Workers = 1
+		o.OnHang = r.onHang(part)
 		st := mc.Explore(o, body)
 		st.Locals = nil
 		out := childStats{Stats: st}
@@ -312,8 +325,9 @@ func (r *Run) ExploreSharded(part, bound string, o mc.Opts, n int, body func(*mc
 	dir := filepath.Join(Root, ".work", "shards")
 	os.MkdirAll(dir, 0o755)
 	type res struct {
-		st  childStats
-		err error
+		st   childStats
+		err  error
+		viol string
 	}
 	results := make([]res, n)
 	done := make(chan int)
@@ -326,6 +340,10 @@ func (r *Run) ExploreSharded(part, bound string, o mc.Opts, n int, body func(*mc
 			cmd.Env = append(os.Environ(), "GOMAXPROCS=1")
 			ob, err := cmd.CombinedOutput()
 			if err != nil {
+				if strings.Contains(string(ob), "VIOLATION property=") {
+					results[i].viol = string(ob)
+					return
+				}
 				results[i].err = fmt.Errorf("shard %d: %v: %s", i, err, tail(string(ob), 2000))
 				return
 			}
@@ -344,6 +362,12 @@ func (r *Run) ExploreSharded(part, bound string, o mc.Opts, n int, body func(*mc
 	st.Complete = true
 	st.ClassCount = map[string]int64{}
 	for i := range results {
+		if results[i].viol != "" {
+			fmt.Print(results[i].viol)
+			r.violations++
+			st.Complete = false
+			continue
+		}
 		if results[i].err != nil {
 			r.harnessErr = append(r.harnessErr, results[i].err.Error())
 			st.Complete = false
